@@ -116,18 +116,20 @@ def rejection_guards(ctx, fi: FunctionInfo):
     return out
 
 
-def _int_guard_semantics(expr: ast.AST, reject_label: str, subject: str) -> Optional[Set[int]]:
+def _int_guard_semantics(expr: ast.AST, reject_label: str, subject) -> Optional[Set[int]]:
     """For a guard comparing `subject` (a name, or len(name)) with an integer constant:
     the set of values k in 0..6 that are REJECTED.  None if the shape is different."""
     if not (isinstance(expr, ast.Compare) and len(expr.ops) == 1):
         return None
     l, r = expr.left, expr.comparators[0]
 
+    subj = subject if callable(subject) else (lambda nm: nm == subject)
+
     def is_subject(e):
-        if isinstance(e, ast.Name) and e.id == subject:
+        if isinstance(e, ast.Name) and subj(e.id):
             return True
         if isinstance(e, ast.Call) and isinstance(e.func, ast.Name) and e.func.id == "len" and len(e.args) == 1 \
-                and isinstance(e.args[0], ast.Name) and e.args[0].id == subject:
+                and isinstance(e.args[0], ast.Name) and subj(e.args[0].id):
             return True
         return False
 
@@ -152,7 +154,7 @@ def _int_guard_semantics(expr: ast.AST, reject_label: str, subject: str) -> Opti
 
 def _degrees(e: ast.AST, vecs: Tuple[str, ...]):
     """homogeneity degree of an expression in the vectors `vecs` (tuple of ints), 'zero' for an exact zero / the
-    tolerance (an absolute quantity), 'bool0' for a scale-invariant predicate, None when outside the fragment"""
+    tolerance ('eps', an absolute quantity), 'bool0' for a scale-invariant predicate, None when outside the fragment"""
     Z = tuple(0 for _ in vecs)
 
     def add(a, b):
@@ -170,7 +172,7 @@ def _degrees(e: ast.AST, vecs: Tuple[str, ...]):
         f = e.func
         name = f.id if isinstance(f, ast.Name) else (f.attr if isinstance(f, ast.Attribute) else None)
         if name == "get_eps" and not e.args:
-            return "zero"  # an absolute tolerance
+            return "eps"  # an absolute tolerance
         if name == "zero" and not e.args:
             return "zero"
         if name == "abs" and isinstance(f, ast.Name) and len(e.args) == 1:
@@ -194,9 +196,9 @@ def _degrees(e: ast.AST, vecs: Tuple[str, ...]):
     if isinstance(e, ast.BinOp):
         l, r = _degrees(e.left, vecs), _degrees(e.right, vecs)
         if isinstance(e.op, ast.Mult):
-            if l == "zero" or r == "zero":
-                other = r if l == "zero" else l
-                return other if isinstance(other, tuple) else ("zero" if other == "zero" else None)  # eps * |v1| * |v2|: degree of the rest
+            if l in ("zero", "eps") or r in ("zero", "eps"):
+                other = r if l in ("zero", "eps") else l
+                return other if isinstance(other, tuple) else (other if other in ("zero", "eps") else None)  # eps * |v1| * |v2|: degree of the rest
             return add(l, r) if isinstance(l, tuple) and isinstance(r, tuple) else None
         if isinstance(e.op, ast.Div):
             if isinstance(l, tuple) and isinstance(r, tuple):
@@ -223,7 +225,7 @@ def scale_dependent_compare(fi: FunctionInfo, cond: ast.AST, vecs: Tuple[str, ..
             continue
         l, r = _degrees(c.left, vecs), _degrees(c.comparators[0], vecs)
         for a, b in ((l, r), (r, l)):
-            if isinstance(a, tuple) and all(x > 0 for x in a) and b == "zero":
+            if isinstance(a, tuple) and all(x > 0 for x in a) and b in ("zero", "eps"):
                 return c, a
     return None
 
@@ -244,6 +246,20 @@ class GuardOb:
         self.min_accept = min_accept  # for count guards: smallest accepted value
         self.subject = subject
         self.module = module
+
+
+def expand_guard(fi, e):
+    """a guard on a hoisted count (`count = len(points); if count < 3`) reads as the comparison on len(points)"""
+    from ..astutil import single_defs
+    import copy as _copy
+    d = single_defs(fi.node, fi.params)
+    class R(ast.NodeTransformer):
+        def visit_Name(self, n):
+            v = d.get(n.id)
+            if isinstance(n.ctx, ast.Load) and isinstance(v, ast.Call) and isinstance(v.func, ast.Name) and v.func.id == "len":
+                return _copy.deepcopy(v)
+            return n
+    return R().visit(_copy.deepcopy(e))
 
 
 def check_guard(ctx, res, ob: GuardOb, rule="R15.1", prop_res=None) -> bool:
@@ -289,7 +305,13 @@ def check_guard(ctx, res, ob: GuardOb, rule="R15.1", prop_res=None) -> bool:
                     txt(e)[:50], sorted(seen_t) or "nothing", ob.container_type))
                 continue
         if ob.min_accept is not None:
-            sem = _int_guard_semantics(e, rej, ob.subject)
+            # the counted collection is the named one, or any local derived from the validated input
+            def _subj(nm, _ob=ob):
+                if nm == _ob.subject:
+                    return True
+                return bool(_ob.inputs_any) and nm not in fi.params and bool(
+                    cond_deps(ctx, fi, ast.Name(id=nm, ctx=ast.Load())) & _ob.inputs_any)
+            sem = _int_guard_semantics(expand_guard(fi, e), rej, _subj)
             if sem is None:
                 rejected_detail.append("`%s`: not a count comparison on %s" % (txt(e)[:50], ob.subject))
                 continue
@@ -627,7 +649,13 @@ def r154_definite_assignment(ctx, res):
         # which paths miss them?  if only the fall-through of *all* arity tests does, it is an
         # undocumented arity (outside the statement's list): NOTE, not a violation.
         g = ctx.cfg(init)
-        arity = [c for c in g.conds() if "len(" in txt(c.ast) and init.vararg and init.vararg in names_in(c.ast)]
+        from ..astutil import expand_locals
+
+        def is_arity(e):
+            x = expand_locals(init.node, e, init.params)
+            return "len(" in txt(x) and init.vararg and init.vararg in names_in(x)
+
+        arity = [c for c in g.conds() if is_arity(c.ast)]
         avoid = set()
         for c in arity:
             for y, l in g.succ[c.id]:
@@ -641,7 +669,11 @@ def r154_definite_assignment(ctx, res):
             p = g.path(g.entry, g.exit, avoid_edges=avoid)
             if p is not None:
                 asg_nodes = [x for x in p if any(isinstance(g.nodes[x].ast, (ast.Assign, ast.Expr)) for _ in [0])]
-                only_arity = not any(isinstance(g.nodes[x].ast, (ast.Assign, ast.AugAssign, ast.Expr)) for x in p)
+                def plain_local(a):
+                    return isinstance(a, ast.Assign) and all(isinstance(t, ast.Name) for t in a.targets) \
+                        and not any(isinstance(z, ast.Call) and not (isinstance(z.func, ast.Name) and z.func.id == "len") for z in ast.walk(a.value))
+                only_arity = not any(isinstance(g.nodes[x].ast, (ast.Assign, ast.AugAssign, ast.Expr)) and not plain_local(g.nodes[x].ast)
+                                     for x in p)
         if only_arity:
             res.ob("R15.4", init.where(), cname + ".__init__", True,
                    "fields %s are assigned on every documented form; an undocumented argument count falls through" % sorted(may),
